@@ -441,6 +441,28 @@ def run_trees(case):
     for t in trees:
         check_tree(t, res)
         res.states.add(repr(t))
+    if case["shape"] == "K" or case["shape"] == "1":
+        # a sequence of short-lived parameters from one factory (same code, another captured constant), each built, evaluated
+        # at the same points, combined with a time-dependent operand, and dropped before the next one exists
+        import gc
+
+        import tdgl
+
+        a = ARGS[1]
+        for it in range(24):
+            c = 0.5 + 0.37 * it
+            leaf = tdgl.Parameter(closure_leaf(c))
+            comp = leaf * 2.0 + tdgl.Parameter(f_t2, time_dependent=True)
+            want_leaf = c + 0.2 * a["x"] - 0.1 * a["y"]
+            want = 2.0 * want_leaf + f_t2(a["x"], a["y"], t=0.4)
+            got_leaf, got = leaf(a["x"], a["y"]), comp(a["x"], a["y"], t=0.4)
+            res.transitions += 2
+            bad = not same(np.asarray(got_leaf), want_leaf) or not same(np.asarray(got), want)
+            del leaf, comp
+            gc.collect()
+            if bad:
+                res.violate("short-lived-parameter-answers-for-another-parameter", detail={"iteration": it})
+                break
     res.executions = len(trees)
     res.nontrivial = True
     res.outcome = f"trees-{case['shape']}"
